@@ -86,10 +86,22 @@ func engineCABI(rc *RunCtx) *Outcome {
 	} else {
 		c = drawCellCase(w, 5, 40)
 	}
+	if !huge && w.Choose(10) == 9 {
+		// an "initialise only" call: zero timesteps
+		c.T = 0
+		for b := range c.inBlocks {
+			for x := range c.inBlocks[b] {
+				c.inBlocks[b][x] = c.inBlocks[b][x][:0]
+			}
+		}
+	}
 	width := len(c.stateRows[0])
 	nIn, nOut := len(c.desc.Inputs), len(c.desc.Outputs)
 	initStates := w.Bool(40)
 	hasStates := !initStates || w.Bool(60)
+	if c.T == 0 && w.Bool(60) {
+		initStates, hasStates = true, true // the "initialise only" call proper
+	}
 	guardBefore := w.Bool(30)
 	if initStates {
 		// the library initialises the states itself: the Go-API reference must start from the
@@ -108,6 +120,25 @@ func engineCABI(rc *RunCtx) *Outcome {
 		// (its equivalence with one-cell runs is C04's business)
 		c.referenceVectorised()
 		o.probe("cabi_more_than_65536_cells")
+	} else if c.T == 0 {
+		// not every kernel accepts an empty series (some read the first element unconditionally): where
+		// the Go API itself cannot run the case it is outside the working domain
+		outside := false
+		func() {
+			defer func() {
+				if r := recover(); r != nil {
+					if _, ok := r.(refCrash); !ok {
+						panic(r)
+					}
+					outside = true
+				}
+			}()
+			c.reference()
+		}()
+		if outside {
+			o.probe("cabi_zero_timesteps_outside_the_model's_domain")
+			return o
+		}
 	} else {
 		c.reference()
 	}
@@ -236,6 +267,9 @@ func engineCABI(rc *RunCtx) *Outcome {
 		}
 	}
 	o.probe("cabi_job")
+	if c.T == 0 {
+		o.probe("cabi_zero_timesteps")
+	}
 	if initStates {
 		o.probe("cabi_library_initialises_states")
 	}
